@@ -10,6 +10,7 @@ import json
 import os
 import math
 import pickle
+import warnings
 
 import numpy as np
 
@@ -320,7 +321,23 @@ def run_case(ctx, case):
             d = copy.deepcopy(d) if val == 'deepcopy' else (pickle.loads(pickle.dumps(d)) if val == 'pickle' else copy.copy(d))
             ctx.hook('history_continues_on_a_copy')
             continue
-        setattr(d, op, ilen(int(val)) if op == 'length' else (val if isinstance(val, int) else float(val)))
+        newval = ilen(int(val)) if op == 'length' else (val if isinstance(val, int) else float(val))
+        if case['aseed'] % 4 == 2:
+            # the caller runs with warnings escalated to errors (python -W error, pytest filterwarnings=error): should the library
+            # warn inside a setter, the assignment is refused by an exception - and the Domain that survives it must still be ONE
+            # consistent grid (wholly the old or wholly the new one), never a mixture
+            ctx.hook('setter_under_warnings_as_errors')
+            try:
+                with warnings.catch_warnings():
+                    warnings.simplefilter('error')
+                    setattr(d, op, newval)
+            except Warning as e:
+                ctx.hook('setter_refused_by_escalated_warning')
+                for mech, msg in grid_invariant(d, 'after %s=%r was interrupted by %s' % (op, newval, type(e).__name__)) + fresh_equal(d, 'after %s=%r was interrupted by %s' % (op, newval, type(e).__name__)):
+                    ctx.violation(mech + '@setter-interrupted-by-warning', msg)
+                    return
+            continue
+        setattr(d, op, newval)
     for n_, (orig, how) in enumerate(kept):
         ctx.hook('original_after_copy_checked')
         for mech, msg in grid_invariant(orig, 'original of a %s copy' % how) + fresh_equal(orig, 'original of a %s copy' % how):
